@@ -8,7 +8,9 @@ CLAIM = {
          "generator with scripted select results) and of the real switch I/O loop (RecocoIOLoop.run + OFConnection.read); a sibling connection carries "
          "valid echo requests before and after. On every feasible path: processing terminates within a step budget, the loop generator survives, the "
          "sibling's messages are delivered unchanged, and the offending connection is either closed or has skipped/answered the bytes - a complete "
-         "declared frame is never left stuck in an open connection.",
+         "declared frame is never left stuck in an open connection. The step budget counts dispatches and looks at the receive buffer, so a read loop "
+         "that spins without consuming is reported as non-termination. A further switch-side case buffers one maximal message (65535 bytes, six types, "
+         "symbolic xid, declared length 0xffe0..0xffff).",
  'note': "Trusted: CPython, z3, symx proxies/shims (selftest), scripted sockets and select results (props/env.py). Message handlers on the "
          "controller side are recording stubs (handler semantics belong to C09/C17). Bounded by the stated buffer lengths.",
 }
@@ -131,7 +133,7 @@ def h_controller(ctx, n):
   _finish(core, g)
 
 
-def h_switch(ctx, n):
+def h_switch(ctx, n, big=False):
   core = env.get_core()
   iow = ctx.pox('pox.lib.ioworker')
   sw = ctx.pox('pox.datapaths.switch')
@@ -149,8 +151,20 @@ def h_switch(ctx, n):
     c.set_message_handler(lambda con, msg, i=i: got[i].append((msg.header_type, msg.pack())))
     conns.append(c)
   conns[0].unpackers = Counting(conns[0].unpackers, 2 * (n // 4 + 2), flag)
+  # the read loop may also spin without ever dispatching: budget on looks at the receive buffer
+  real_peek = workers[0].peek; peeks = [0]
+  def peek():
+    peeks[0] += 1
+    if peeks[0] > 4 * (n // 4 + 2) + 40:
+      flag.append('nonterminating'); raise RuntimeError("step budget exceeded (non-termination)")
+    return real_peek()
+  workers[0].peek = peek
   sel = next(g)
-  data = ctx.bytes('data', n)
+  if big:
+    # one maximal message: version 1, type in {10,13,14,16,99,200}, symbolic xid, declared length 0xffe0..0xffff, 65535 bytes buffered (body zeros)
+    data = env.tobytes(ctx, [1, [10, 13, 14, 16, 99, 200][int(ctx.int('typeidx', 0, 5))], 0xff, ctx.int('lenlow', 0xe0, 255)] + list(ctx.bytes('xid', 4)) + [0] * (n - 8))
+  else:
+    data = ctx.bytes('data', n)
   b1 = echo_bytes(0x11111111, b'ab'); b2 = echo_bytes(0x22222222)
   alive = True
   wA, wB = workers
@@ -159,6 +173,7 @@ def h_switch(ctx, n):
     sel = g.send(([wB], [], []))
     socks[0].feed(data)
     sel = g.send(([wA], [], []))
+    while socks[0].chunks: sel = g.send(([wA], [], []))        # a long input arrives in several recv() calls
     socks[1].feed(b2)
     sel = g.send(([wB], [], []))
     sel = g.send(([], [], []))
@@ -187,10 +202,11 @@ def obligations(tier):
   ns_c = [8, 12, 16] + ([20, 24] if thorough else [])
   ns_s = [4, 8, 12, 16] + ([20, 24] if thorough else [])
   BOUNDS[tier] = dict(controller_buffer_bytes=ns_c, switch_buffer_bytes=ns_s, content="all bytes unconstrained",
-                      placement="between two valid echo requests on a sibling connection")
+                      placement="between two valid echo requests on a sibling connection",
+                      big_message="switch side: one 65535-byte buffer, version 1, six types, symbolic xid, declared length 0xffe0..0xffff, zero body")
   return [
     Obligation('O1_controller', h_controller, [dict(n=k) for k in ns_c], witnesses=('kept-open', 'closed'), max_decisions=20000, conc_cap=300,
                desc='controller I/O loop: N unconstrained bytes on one connection; termination, containment, sibling delivery'),
-    Obligation('O2_switch', h_switch, [dict(n=k) for k in ns_s], witnesses=('kept-open', 'closed'), max_decisions=20000,
+    Obligation('O2_switch', h_switch, [dict(n=k) for k in ns_s] + [dict(n=65535, big=True)], witnesses=('kept-open', 'closed'), max_decisions=20000,
                desc='switch I/O loop + OFConnection.read: N unconstrained bytes; termination, containment, sibling delivery, no stuck frame'),
   ]
